@@ -66,6 +66,9 @@ MStep(pk, n, m, e) ==
          IF ~m.pan /\ d > 0 /\ m.stk[d].h = e.h /\ m.pend = "body" THEN [m EXCEPT !.rh = TRUE] ELSE Bad(m, "setrh outside its handler")
     [] e.e = "cancel" ->
          IF ~m.pan /\ d > 0 /\ m.stk[d].h = e.h /\ m.pend = "body" THEN [m EXCEPT !.cn = TRUE] ELSE Bad(m, "cancel outside its handler")
+    [] e.e = "uncancel" ->
+         \* the handler restored the original, un-cancelled request (it had installed a derived context before)
+         IF ~m.pan /\ d > 0 /\ m.stk[d].h = e.h /\ m.pend = "body" THEN [m EXCEPT !.cn = FALSE] ELSE Bad(m, "uncancel outside its handler")
     [] e.e = "next" ->
          IF ~m.pan /\ d > 0 /\ m.stk[d].h = e.h /\ m.pend = "body"
          THEN [m EXCEPT !.stk[d].inNext = TRUE,
